@@ -80,6 +80,7 @@ pub fn replay_value(rp: &Value) -> Vec<String> {
         "asm" => text::replay_asm(rp),
         "asm-total" => text::replay_asm_total(rp),
         "disasm" => text::replay_disasm(rp),
+        "disasm-print" => text::replay_disasm_print(rp),
         "roundtrip" => text::replay_roundtrip(rp),
         k if k.starts_with("c17-") => text::replay_c17(rp),
         k => vec![format!("unknown replay kind {k:?}")],
